@@ -1,8 +1,12 @@
 mod common;
+mod c01;
+mod c02;
+mod c06;
 mod c14;
 mod c18;
 mod c20;
 mod extract;
+mod gen;
 use common::*;
 use std::io::BufRead;
 
@@ -13,6 +17,9 @@ pub fn exec_line(line: &str) -> String {
         let t: Vec<&str> = l.split(' ').collect();
         c14::exec(&t)
             .or_else(|| c20::exec(&t))
+            .or_else(|| c01::exec(&t))
+            .or_else(|| c02::exec(&t))
+            .or_else(|| c06::exec(&t))
             .or_else(|| c18::exec(&t))
             .unwrap_or_else(|| "bad-op".to_string())
     }) { Ok(s) => s, Err(m) => format!("PANIC {}", m.replace('\n', " ")) }
@@ -27,6 +34,9 @@ fn main() {
             let (prop, tier, seed, dir) = (&args[2], &args[3], args[4].parse::<u64>().unwrap(), &args[5]);
             let mut o = Out::default();
             match prop.as_str() {
+                "C01" => c01::run(&mut o, tier, seed),
+                "C02" => c02::run(&mut o, tier, seed),
+                "C06" => c06::run(&mut o, tier, seed),
                 "C14" => c14::run(&mut o, tier, seed),
                 "C18" => c18::run(&mut o, tier, seed),
                 "C20" => c20::run(&mut o, tier, seed),
